@@ -305,4 +305,55 @@ def c18(report, rng, tier, findings):
         "caching on: a difference is attributed to C05-F1 only when a result cache was not prefix-uniform during one of the runs"]
 
 
-HANDLERS = {'C03': c03, 'C06': c06, 'C15': c15, 'C18': c18, 'C19': c19}
+# ------------------------------------------------------------------------------------------- C09
+
+def has_pred(c):
+    k = c[0]
+    if k in ('pred', 'predc'):
+        return True
+    if k in ('and', 'or'):
+        return any(has_pred(x) for x in c[1:])
+    if k == 'not':
+        return has_pred(c[1])
+    if k == 'sub':
+        return any(has_pred(x) for x in c[2:])
+    return False
+
+
+def c09(report, rng, tier, findings):
+    n = n_cases(tier, 160, 2000)
+    cases = []
+    i = 0
+    while len(cases) < n and i < 30 * n:
+        i += 1
+        nv = rng.choice((1, 1, 2))
+        quant = rng.choice(('an', 'the'))
+        cfg = gen.Cfg(n_vars=(nv, nv), n_objs=(1, 4), depth=2, select_all=1.0, empty_domain=0.0, quant=quant)
+        case = gen.gen_case(rng, cfg, f'c{i}')
+        if not any(has_pred(c) for c in case['cond']):
+            continue
+        if quant == 'the':
+            try:
+                k = len(surface.Oracle(case).rows())
+            except Exception:
+                continue
+            if k != 1 and rng.random() < 0.7:
+                continue
+        cases.append(case)
+    report.rule = ("random an/the queries that use @predicate functions and Predicate subclasses (with negation, conjunction, "
+                   "disjunction), each evaluated OUTSIDE any block, inside symbolic_mode() and inside rule_mode(), caching on and "
+                   "off, twice; every outcome is compared with the oracle (so the three ambient modes agree with each other); "
+                   "rule inference under the three ambient modes is exercised by the C11 check; non-trivial = every case (each "
+                   "contains a predicate)")
+    judge = QueryJudge(report, findings, 'C09',
+                       expected=lambda case, res: the_expected(case, res) if case['quant'] == 'the'
+                       else canon(res['spec'], case))
+    for c in cases:
+        report.count('quant_' + c['quant'])
+    run_query_cases(report, cases, {'caching': (False, True), 'evals': 2, 'ambients': (None, 'query', 'rule')}, judge)
+    return ['EqlModel.Props.C09', 'EqlModel.Props.C08'], [
+        "the mode is read only by the patched constructors / predicate wrappers (hybrid_new, predicate.wrapper)",
+        "single thread"]
+
+
+HANDLERS = {'C09': c09, 'C03': c03, 'C06': c06, 'C15': c15, 'C18': c18, 'C19': c19}
